@@ -7,7 +7,7 @@
 From Coq Require Import Lia ZifyBool.
 From RecordUpdate Require Import RecordUpdate.
 From Model Require Import Base SeqNum Wire Conn Net Net2.
-From Proofs Require Import Tac SeqNumP ConnFrameP NonceP PackP AckP CallbackP AckNamesP.
+From Proofs Require Import Tac SeqNumP ConnFrameP NonceP PackP ClearP AckP CallbackP CustodyP AckNamesP.
 Import RecordSetNotations.
 Open Scope Z_scope.
 Ltac Zify.zify_post_hook ::= Z.to_euclidean_division_equations.
@@ -610,4 +610,164 @@ Lemma auth_run_app e vs : forall G ws, auth_run e G (vs ++ ws) <-> auth_run e G 
 Proof.
   induction vs as [|v r IH]; intros G ws; cbn [app auth_run grun fold_left]; [tauto|].
   rewrite IH. unfold grun. tauto.
+Qed.
+
+(* ---------- which datagram a success callback belongs to ---------- *)
+(* the user-visible callback a registered callback object reports to: a plain or RetrySender-wrapped
+   user callback id, or the collector of a fragmented message *)
+Definition cb_inner (k : cb) : icb := match k with Plain i => i | Retry _ _ _ _ i => i end.
+Definition cb_for (k : cb) (id : Z) : Prop := cb_inner k = IUser id \/ exists fid idx, cb_inner k = IFrag fid idx.
+
+Lemma fire_icb_for c i ok c' o id b : fire_icb c i ok = (c', o) -> In (OCallback id b) o ->
+  i = IUser id \/ exists fid idx, i = IFrag fid idx.
+Proof.
+  unfold fire_icb. intros E Hin. destruct i; try (right; eauto; fail); injection E as <- <-.
+  - destruct Hin.
+  - destruct Hin as [H|[]]. injection H as H1 H2. subst. left. reflexivity.
+  - exfalso. destruct ok; cbn in Hin; [destruct Hin|destruct Hin as [H|[]]; discriminate].
+  - exfalso. destruct ok; cbn in Hin; [destruct Hin|destruct Hin as [H|[]]; discriminate].
+  - exfalso. destruct Hin as [H|[]]; discriminate.
+Qed.
+
+Lemma fire_cb_for c k ok c' o id b : fire_cb c k ok = (c', o) -> In (OCallback id b) o -> cb_for k id.
+Proof.
+  unfold fire_cb, cb_for. intros E Hin. destruct k as [i|rid mseq ty p i]; cbn [cb_inner].
+  - eapply fire_icb_for; eassumption.
+  - destruct (zmem rid (c_done c)); [injection E as <- <-; destruct Hin|].
+    destruct (negb ok); [injection E as <- <-; destruct Hin|]. eapply fire_icb_for; eassumption.
+Qed.
+
+Lemma fire_all_for ks : forall c ok c' o id b, fire_all c ks ok = (c', o) -> In (OCallback id b) o ->
+  exists k, In k ks /\ cb_for k id.
+Proof.
+  induction ks as [|k ks IH]; intros c ok c' o id b E Hin; cbn [fire_all] in E.
+  - injection E as <- <-. destruct Hin.
+  - destruct (fire_cb c k ok) as [c1 o1] eqn:E1. destruct (fire_all c1 ks ok) as [c2 o2] eqn:E2.
+    injection E as <- <-. apply in_app_or in Hin as [Hin|Hin].
+    + exists k. split; [left; reflexivity|eapply fire_cb_for; eassumption].
+    + destruct (IH _ _ _ _ _ _ E2 Hin) as (k' & H1 & H2). exists k'. split; [right; exact H1|exact H2].
+Qed.
+
+Lemma resolve_for ok c s c' o id b : resolve ok c s = (c', o) ->
+  (In (OCallback id b) o -> exists ks k, dget s (c_pcbs c) = Some ks /\ In k ks /\ cb_for k id) /\
+  (forall s' ks, dget s' (c_pcbs c') = Some ks -> dget s' (c_pcbs c) = Some ks).
+Proof.
+  unfold resolve. intros E.
+  set (c0 := if ok then _ else _) in E.
+  assert (P0 : c_pcbs c0 = c_pcbs c) by (subst c0; destruct ok; reflexivity).
+  rewrite <- P0. clearbody c0.
+  destruct (dget s (c_pcbs c0)) as [ks|] eqn:Eg.
+  - destruct (fire_all c0 ks ok) as [c1 o1] eqn:E1. injection E as <- <-.
+    destruct (fire_all_grows _ _ _ _ _ E1) as [[_ _ G _] _].
+    split.
+    + intros Hin. destruct (fire_all_for _ _ _ _ _ _ _ E1 Hin) as (k & H1 & H2). exists ks, k. auto.
+    + intros s' ks'. destruct (dget s (c_pretry _)); cbn; rewrite G, dget_ddel; destruct (s' =? s); try discriminate; auto.
+  - injection E as <- <-. split; [intros []|]. intros s' ks'. destruct (dget s (c_pretry c0)); cbn; auto.
+Qed.
+
+Lemma ack_loop_for h snap : forall c c' o id, Inc c -> ack_loop c h snap = (c', o) -> In (OCallback id true) o ->
+  exists s t ks k, In (s, t) snap /\ hdr_acks (h_ack h) (h_ackbits h) s = true /\
+    dget s (c_pcbs c) = Some ks /\ In k ks /\ cb_for k id.
+Proof.
+  induction snap as [|[s t] r IH]; intros c c' o id I E Hin; cbn [ack_loop] in E.
+  - injection E as <- <-. destruct Hin.
+  - dpair E c1 o1 E1. destruct (ack_loop c1 h r) as [c2 o2] eqn:E2. injection E as <- <-.
+    assert (H1 : Inc c1 /\ (forall s' ks, dget s' (c_pcbs c1) = Some ks -> dget s' (c_pcbs c) = Some ks)).
+    { destruct (hdr_acks _ _ s); [split; [eapply resolve_Inc; eassumption|apply (resolve_for _ _ _ _ _ 0 true E1)]|].
+      destruct (_ >? _); [split; [eapply resolve_Inc; eassumption|apply (resolve_for _ _ _ _ _ 0 true E1)]|].
+      injection E1 as <- <-. auto. }
+    destruct H1 as [I1 P1]. apply in_app_or in Hin as [Hin|Hin].
+    + destruct (hdr_acks (h_ack h) (h_ackbits h) s) eqn:Ea.
+      * destruct (resolve_for _ _ _ _ _ id true E1) as [F _]. destruct (F Hin) as (ks & k & A & B & D).
+        exists s, t, ks, k. repeat split; auto. left. reflexivity.
+      * exfalso. destruct (_ >? _).
+        -- apply (resolve_false_true _ _ _ _ I E1). exists id. exact Hin.
+        -- injection E1 as <- <-. destruct Hin.
+    + destruct (IH _ _ _ _ I1 E2 Hin) as (s' & t' & ks & k & A & B & D & F & G).
+      exists s', t', ks, k. repeat split; auto. right. exact A.
+Qed.
+
+Lemma recv_for c now d orcs c' o id : Inc c -> recv c now d orcs = (c', o) -> In (OCallback id true) o ->
+  opens c d = true /\
+  exists s t ks k, In (s, t) (c_packs c) /\ hdr_acks (h_ack (d_hdr d)) (h_ackbits (d_hdr d)) s = true /\
+    dget s (c_pcbs c) = Some ks /\ In k ks /\ cb_for k id.
+Proof.
+  unfold recv, opens. intros I E Hin.
+  destruct (keyless_refuses c (d_hdr d)); [injection E as <- <-; destruct Hin as [H|[]]; discriminate|].
+  destruct (open_dgram (c_key c) d) as [ms|]; [|injection E as <- <-; destruct Hin as [H|[]]; discriminate].
+  destruct (bf_insert (c_bf_pkt c) _) as [bf|]; [|injection E as <- <-; destruct Hin as [H|[]]; discriminate].
+  match type of E with context [handle_ack_bits ?c0 _] => set (cc := c0) in E end.
+  destruct (handle_ack_bits cc (d_hdr d)) as [c1 o1] eqn:E1.
+  destruct (recv_msgs c1 now ms orcs) as [c2 o2] eqn:E2. injection E as <- <-.
+  split; [reflexivity|].
+  apply in_app_or in Hin as [Hin|Hin].
+  - unfold handle_ack_bits in E1. assert (Icc : Inc cc) by exact I.
+    exact (ack_loop_for _ _ _ _ _ _ Icc E1 Hin).
+  - exfalso. apply in_app_or in Hin as [Hin|Hin].
+    + exact (recv_msgs_no_cb _ _ _ _ _ _ _ _ E2 Hin).
+    + destruct (raised o2); [destruct Hin|destruct Hin as [H|[]]; discriminate].
+Qed.
+
+(* every event: a success callback is reported for a callback object registered (pending_callbacks)
+   for a pending datagram that the header being processed names *)
+Theorem step_true_for e c x c' o id : Inc c -> step e c x = (c', o) -> In (OCallback id true) o ->
+  exists a0 d, pre_recv c x = Some (a0, d) /\ opens a0 d = true /\
+    exists s t ks k, In (s, t) (c_packs a0) /\ hdr_acks (h_ack (d_hdr d)) (h_ackbits (d_hdr d)) s = true /\
+      dget s (c_pcbs a0) = Some ks /\ In k ks /\ cb_for k id.
+Proof.
+  intros I E Hin.
+  destruct (step_true _ _ _ _ _ I E (ex_intro _ id Hin)) as (now & d & orcs & c0 & Hx & _).
+  destruct Hx as [[-> ->]|[-> ->]]; cbn [step pre_recv] in *.
+  - destruct (recv_for _ _ _ _ _ _ _ I E Hin) as [Ho Hs]. exists c, d. auto.
+  - unfold client_tick in E.
+    destruct (client_update c now) as [c0 o0] eqn:E0. cbn [fst].
+    assert (I0 : Inc c0).
+    { unfold client_update in E0. destruct (_ && (now >? _)); destruct (_ && (_ >? c_temp_timeout _)); injection E0 as <- <-; exact I. }
+    assert (N0 : forall id b, ~ In (OCallback id b) o0).
+    { intros id' b Hi. unfold client_update in E0.
+      destruct (_ && (now >? _)); destruct (_ && (_ >? c_temp_timeout _)); injection E0 as <- <-;
+        try solve [destruct Hi]; destruct (c_conn_cb _); try solve [destruct Hi]; destruct Hi as [H|[]]; discriminate. }
+    destruct (status_eqb (c_status c0) DROPPED); [injection E as <- <-; exfalso; exact (N0 _ _ Hin)|].
+    destruct (recv c0 now d orcs) as [c1 o1] eqn:Er.
+    assert (Hin1 : In (OCallback id true) o1).
+    { set (o1f := filter (fun x => match x with ORet _ => false | _ => true end) o1) in E.
+      assert (Hf : In (OCallback id true) o1f -> In (OCallback id true) o1) by (intros H; apply filter_In in H as [H _]; exact H).
+      apply Hf. clear Hf.
+      destruct (raised o1f).
+      { injection E as <- <-. apply in_app_or in Hin as [H|H]; [exfalso; exact (N0 _ _ H)|exact H]. }
+      destruct (_ >? _).
+      2:{ injection E as <- <-. apply in_app_or in Hin as [H|H]; [exfalso; exact (N0 _ _ H)|exact H]. }
+      destruct (build_packet e c1 now) as [c2 pk] eqn:E2.
+      destruct (check_timeout false c2 now) as [c3 o3] eqn:E3. injection E as <- <-.
+      apply in_app_or in Hin as [H|H]; [exfalso; exact (N0 _ _ H)|].
+      apply in_app_or in H as [H|H]; [exact H|exfalso].
+      apply in_app_or in H as [H|H].
+      - destruct pk; [exact (emit_no_cb _ _ _ _ H)|destruct H].
+      - assert (I1 : Inc c1) by (eapply recv_Inc; eassumption).
+        assert (I2 : Inc c2) by (unfold Inc; rewrite (build_packet_pfrags _ _ _ _ _ E2); exact I1).
+        apply (timeout_loop_true _ _ _ _ _ _ I2 E3). exists id. exact H. }
+    destruct (recv_for _ _ _ _ _ _ _ I0 Er Hin1) as [Ho Hs]. exists c0, d. auto.
+Qed.
+
+(* the success callback id: the callback object that reports it is registered for a pending datagram
+   that the header names, and B has accepted that datagram *)
+Theorem success_registered_accepted e S K G vs x l a' o id :
+  0 <= e_max_payload e -> J S K G -> Inc (nA (g_net G)) -> wf2_run e G (vs ++ [(NA x, l)]) ->
+  let G' := grun e G vs in
+  step e (nA (g_net G')) x = (a', o) -> In (OCallback id true) o ->
+  exists a0 d s t ks k i dA,
+    pre_recv (nA (g_net G')) x = Some (a0, d) /\ opens a0 d = true /\
+    In (s, t) (c_packs a0) /\ hdr_acks (h_ack (d_hdr d)) (h_ackbits (d_hdr d)) s = true /\
+    dget s (c_pcbs a0) = Some ks /\ In k ks /\ cb_for k id /\
+    s = wire i /\ 1 <= i <= g_nA G' /\ In i (idx_acc (g_B G')) /\
+    In (i, dA) (g_AB G') /\ In dA (wAB (g_net G')) /\ h_seq (d_hdr dA) = s /\ In dA (g_accB G').
+Proof.
+  intros He HJ HI Hwf G' E Hin.
+  pose proof (grun_Inc e vs G He HI) as HI'. fold G' in HI'.
+  destruct (step_true_for _ _ _ _ _ _ HI' E Hin) as (a0 & d & Hpre & Hop & s & t & ks & k & Hpend & Hack & Hg & Hk & Hf).
+  pose proof (acked_means_accepted e S K G vs x l a0 d HJ Hwf Hpre Hop) as Hacc. fold G' in Hacc.
+  destruct (Hacc s t Hpend Hack) as (i & dA & H1 & H2 & H3 & H4 & H5 & H6).
+  exists a0, d, s, t, ks, k, i, dA. repeat split; try assumption; try lia.
+  apply wf2_run_app in Hwf as [W1 _]. pose proof (J_run e S K vs G HJ W1) as [_ _ _ Hw _ _ _ _]. fold G' in Hw.
+  rewrite <- Hw. apply (in_map snd) in H4. exact H4.
 Qed.
